@@ -126,7 +126,8 @@ class SimNet:
         d1 = self.s_delay.ticks(self.max_delay_ticks)
         fault = None
         if self.faults_enabled:
-            for kind in ('drop_request', 'drop_response', 'duplicate', 'cancel_handler', 'slow_request'):
+            for kind in ('drop_request', 'drop_response', 'duplicate', 'cancel_handler', 'slow_request',
+                         'late_duplicate'):
                 r = self.rates.get(kind, 0.0)
                 if r and self.s_fault.chance(r):
                     fault = kind
@@ -166,9 +167,11 @@ class SimNet:
         task = loop.create_task(serve(), context=svc.context.copy() if svc.context is not None else None)
         self.inflight.add(task)
         task.add_done_callback(self.inflight.discard)
-        if fault == 'duplicate':
-            ctx.fault('net.duplicate')
-            d3 = self.s_delay.ticks(self.max_delay_ticks)
+        if fault in ('duplicate', 'late_duplicate'):
+            ctx.fault('net.' + fault)
+            # a retransmitted copy of the request: right behind the original, or (late_duplicate) many seconds later,
+            # when the original has long been answered and the client has moved on
+            d3 = self.s_delay.ticks(self.max_delay_ticks) if fault == 'duplicate' else self.s_delay.rint(1000, 25000) / 1024
 
             async def dup():
                 await asyncio.sleep(d3)
